@@ -201,6 +201,9 @@ func escapeSome(q string, rng *rand.Rand) string {
 	return `"` + body[:i] + fmt.Sprintf("\\u%04x", body[i]) + body[i+1:] + `"`
 }
 
+// the schema parsed by the previous emitSchemaParse call
+var prevParsed *avro.Schema
+
 func emitSchemaParse(c *driverCtx, key string, s node, text string) {
 	ev := map[string]any{"op": "schema_parse", "s": s, "text": clipS(text, 600), "outcome": "ok", "parsed": snode("null", "", "", 0, nil, nil),
 		"marshal": "none", "remarshalled": snode("null", "", "", 0, nil, nil)}
@@ -222,6 +225,12 @@ func emitSchemaParse(c *driverCtx, key string, s node, text string) {
 		case err != nil:
 			ev["marshal"] = "err"
 		default:
+			// the application goes on to marshal another schema while it still holds these bytes
+			if prevParsed != nil {
+				catch(func() { prevParsed.Marshal() })
+			}
+			keep := sch
+			prevParsed = &keep
 			ev["marshalText"] = clipS(string(out), 600)
 			back, err := schemaNodeFromJSON(out)
 			if err != nil {
